@@ -259,6 +259,21 @@ class ClientTask:
                         rec.add('RC', self.idx, self.txn_no, c._p_oid,
                                 serial)
                         c._p_invalidate()
+                    elif step[0] == 'rcsprb':
+                        # declare the dependency, savepoint, modify, a
+                        # second savepoint (stores the object in the
+                        # temporary storage), roll back to the first: the
+                        # object is not written, the declaration stands
+                        self.read(c, own)
+                        if c._p_oid in own:
+                            continue
+                        cl.conn.readCurrent(c)
+                        rec.add('RC', self.idx, self.txn_no, c._p_oid,
+                                c._p_serial)
+                        sp0 = cl.tm.savepoint()
+                        c.token = w.tok()
+                        cl.tm.savepoint()
+                        sp0.rollback()
                     elif step[0] == 'sp':
                         cl.tm.savepoint()
                 if txn.get('end', 'commit') == 'abort':
@@ -369,7 +384,7 @@ def gen_script(r, ncell, ntxn, write_p=0.5, rc_p=0.0, abort_p=0.08,
             if y < write_p:
                 steps.append(['w', k])
             elif y < write_p + rc_p:
-                steps.append([r.choice(('rc', 'rc', 'wrcd')), k])
+                steps.append([r.choice(('rc', 'rc', 'wrcd', 'rcsprb')), k])
             else:
                 steps.append(['r', k])
         if r.random() < 0.1:
